@@ -57,6 +57,8 @@ type World struct {
 	mustAdvLeak          map[*ssa.Function]*ssa.BasicBlock
 	constMaps            map[*ssa.Global]*constMapInfo
 	cursorStores         map[string][2]int
+	posSum               []resolvedArg
+	posSumDone           bool
 	pkgInits             map[string]*concr
 	pkgInitErr           map[string]string
 }
